@@ -51,6 +51,8 @@ func runDetect(env *Env) error {
 		switch env.Rnd.Intn(6) {
 		case 0: // around the watermark area
 			size = 0xF6F + env.Rnd.Intn(0x1071-0xF6F+1)
+		case 2: // ending just behind the watermark area: the image is recognised and reads across the area reach the end of the file
+			size = []int{0x1070, 0x1071, 0x1072, 0x1080, 0x10FF, 0x1100}[env.Rnd.Intn(6)]
 		case 1:
 			size = env.Rnd.Intn(3000)
 		}
